@@ -49,6 +49,7 @@ def required_cells(tier):
         req["pos:" + s] = 10 if q else 100
     req["helper:longest-segment"] = 100 if q else 3000
     req["body:more-than-10-faces-vs-line"] = 15 if q else 300
+    req["gen:minus1-minus2-slab"] = 100 if q else 2000
     for hc in ("used-then-moved/receiver", "used-then-moved/returned", "moved/receiver"):
         req["pose:history/" + hc] = 30
     return req
@@ -92,8 +93,10 @@ def judge(case):
     if case.get("helper"):
         return _judge_helper(case)
     G = load()
-    a, b = case["a"], case["b"]
     _inner.new_case()
+    a, b, pre = C.effective(case)
+    if a is None:
+        return core.not_admitted("alias-reread")
     exp = K.inter(a, b)
     if not core.admitted():
         return core.not_admitted("margin")
@@ -110,7 +113,7 @@ def judge(case):
             mu.cell("body:more-than-10-faces-vs-line")
     else:
         mu.cell("body:%d-gon" % len(body[1]))
-    x, y = C.lift_pair(case)
+    x, y = pre or C.lift_pair(case)
     kb_ = "%s,%s" % (ka, kb)
     C.run_inter(G.intersection, x, y, exp, "intersection(a,b)", mu, kb_)
     if ka != "P":
